@@ -83,13 +83,21 @@ LEVEL = "fault_enumeration"
 RULE = (
     "Enumeration. A unit = (session script, event loop, screen kind, pop_ups, bracketed-paste/focus flags, "
     "custom|default prior signal handlers). Sessions: hand-written ones covering every event kind (key batches, "
-    "SGR mouse presses, resize via TIOCSWINSZ+SIGWINCH, alarm, watch_pipe write, watch_file write, the "
+    "SGR mouse reports: press / release / drag, buttons 1-5, plain or with shift / meta / ctrl held, resize via "
+    "TIOCSWINSZ+SIGWINCH, alarm, watch_pipe write, watch_file write, the "
     "REDRAW_SCREEN key, filter drop/map, handled and unhandled keys, a PopUpLauncher pop-up opened and closed by keys "
     "inside one batch and across batches, loop.widget reassigned by a keypress / by the unhandled handler inside a "
-    "batch) plus sessions drawn from a seeded generator (plain | pop-up | swap | both) "
-    "(2-8 events). Units: every session x {select, asyncio, tornado, twisted, trio, zmq} on the raw screen + "
+    "batch, type-ahead bursts whose pieces arrive as soon as the screen has read the previous piece: keys, UTF-8 "
+    "characters and mouse reports cut inside their byte sequence, a resize before / between / behind keys of the "
+    "same burst, after a resize of its own) plus sessions drawn from a seeded generator (plain | pop-up | swap | "
+    "both; bursts with 0-3 cuts at any byte) "
+    "(2-8 events). Delivery sweeps, run once each without injection: every way of cutting each multi-byte key of "
+    "the key table and one mouse report per action in two; every documented mouse event {press 1-5, drag 1-3, "
+    "release 1-3} x {none, shift, meta, ctrl}; a resize at each place among two keys x every choice of piece "
+    "boundaries x with / without a resize just before. "
+    "Units: every session x {select, asyncio, tornado, twisted, trio, zmq} on the raw screen + "
     "the default loop on a screen without hook_event_loop (MainLoop._run_screen_event_loop), pop_ups and the "
-    "other flags alternating (quick) or crossed (thorough). For every unit the session is first run without "
+    "other flags alternating (quick) or crossed (thorough). For every unit that is not a sweep the session is first run without "
     "injection to learn its N user-callback invocations; then one run per (i < N) x {ExitMainLoop, "
     "Boom(Exception), SystemExit (quick: every other i)} with the exception raised by invocation i. Each run is "
     "a forked child on a fresh pty pair. Non-trivial: the injection hits an invocation other than the first on "
@@ -99,9 +107,22 @@ RULE = (
 ASSUMPTIONS = [
     "the Linux pty line discipline stands for the terminal; vlib.vtmodel.VT interprets the bytes urwid wrote "
     "(mode tracking: 1049, 25, 1000/1002/1006, 2004, 1004, SGR, SI/SO)",
-    "the screen is urwid.display.raw.Screen subclassed only to report that draw_screen() returned; the "
+    "the screen is urwid.display.raw.Screen subclassed only to report that draw_screen() and "
+    "get_available_raw_input() returned; the "
     "'screen without external event loop support' is a forwarding proxy that hides hook_event_loop / "
     "unhook_event_loop",
+    "an input event cut in pieces is still that one event: the continuation is written to the terminal while the "
+    "screen is still inside the read that returned the beginning, and Screen.set_input_timeouts(complete_wait=8 s) "
+    "keeps the documented wait for the rest of a sequence from expiring on a busy machine (the 0.125 s default is "
+    "a real-time bound, outside the scripted schedule); a lone ESC is not typed",
+    "mouse reports are xterm SGR (1006) reports, named as the manual documents them ((event, button, x, y) from "
+    "(0, 0); 'shift ' / 'meta ' / 'ctrl ' prefix; one modifier at a time); a release may be reported with button 0",
+    "a resize that arrives inside a burst is compared by count only (no more 'window resize' events than resizes "
+    "so far, at least one after the last resize), not by its place among the keys of the burst: the raw screen "
+    "reports a resize after the bytes read in the same go (signal-vs-read order); the other input of the burst is "
+    "compared in order",
+    "keypress / mouse_event of the topmost probe must be given a (cols, rows) pair the terminal has had so far "
+    "(the Widget box-size convention; old or new size around a resize; the pop-up's size is not asserted)",
     "the next scripted event is produced only after a completed draw (or at the end of an alarm / pipe / file "
     "callback), so 'the loop next waits' is the point where nothing else can happen: a session that makes no "
     "progress for 1 s and, run again, for 4 s is taken as 'the loop waited' (a stall that matches a listed "
@@ -1412,6 +1433,14 @@ def _shrink(case, v, seconds):
             cands = [best["script"][:k] + best["script"][k + 1:]]
             if ev[0] == "keys" and len(ev) > 2:
                 cands.append(best["script"][:k] + [ev[:-1]] + best["script"][k + 1:])
+            if ev[0] == "burst":
+                subs, cuts = burst_parts(ev)
+                for j in range(len(subs) if len(subs) > 1 else 0):  # one sub-event less
+                    kept = [[i - (i > j), o] for i, o in cuts if i != j]
+                    smaller = ["burst", subs[:j] + subs[j + 1:], [c for c in kept if c != [0, 0]]]
+                    cands.append(best["script"][:k] + [smaller] + best["script"][k + 1:])
+                for j in range(len(cuts)):  # one cut less
+                    cands.append(best["script"][:k] + [["burst", subs, cuts[:j] + cuts[j + 1:]]] + best["script"][k + 1:])
             if any(retarget(dict(best, script=sc)) for sc in cands):
                 progress = True
                 break
@@ -1477,7 +1506,8 @@ def shard(ctx):
                 ctx.fail("session", small, v2)
             except Discard:
                 pass
-    name = "every callback invocation x {ExitMainLoop, Boom} (+ SystemExit, quick: every other one) of every unit"
+    name = ("every callback invocation x {ExitMainLoop, Boom} (+ SystemExit, quick: every other one) of every unit "
+            "that is not a delivery sweep")
     ctx.exhaustive[name] = complete and failed is None
     for k, v in sorted(_STATS.items()):
         ctx.count(k, v)
